@@ -95,6 +95,56 @@ class _Continue(Exception):
     pass
 
 
+class _GenDone(Exception):
+    pass
+
+
+class GeneratorObj:
+    """a lazily evaluated generator function of the interpreted code: the body runs in its own thread and hands values over one at a time, so side effects of
+    producer and consumer interleave exactly as in Python"""
+    _interp_safe = True
+
+    def __init__(self, interp, fn, args, kwargs, outer_env):
+        import threading
+        import queue
+        self.interp, self.fn, self.args, self.kwargs, self.outer_env = interp, fn, args, kwargs, outer_env
+        self.to_consumer = queue.Queue()
+        self.to_producer = queue.Queue()
+        self.thread = None
+        self.finished = False
+        self._threading = threading
+
+    def _run(self):
+        try:
+            self.to_producer.get()
+            self.interp._gen_stack.append(self)
+            try:
+                self.interp.call_function(self.fn, list(self.args), dict(self.kwargs), self.outer_env, _as_generator_body=True)
+            finally:
+                self.interp._gen_stack.pop()
+            self.to_consumer.put(('done', None))
+        except BaseException as e:        # hand every failure over to the consumer's thread
+            self.to_consumer.put(('error', e))
+
+    def __iter__(self):
+        return self
+
+    def __next__(self):
+        if self.finished:
+            raise StopIteration
+        if self.thread is None:
+            self.thread = self._threading.Thread(target=self._run, daemon=True)
+            self.thread.start()
+        self.to_producer.put('go')
+        kind, val = self.to_consumer.get()
+        if kind == 'value':
+            return val
+        self.finished = True
+        if kind == 'error':
+            raise val
+        raise StopIteration
+
+
 class Closure:
     def __init__(self, fn, env, interp):
         self.fn, self.env, self.interp = fn, env, interp
@@ -142,6 +192,7 @@ class Interp:
         self.stubs = dict(PURE_STDLIB)
         self.stubs.update(stubs or {})
         self.methods = methods or {}  # kind -> {method name: FunctionDef}: methods of the analysed class, interpreted when a stand-in is asked for them
+        self._gen_stack = []
         self.module = None            # ast.Module of the analysed code: its top-level constants and functions resolve free names
         self.src = None               # SourceSet: lets `from mindsdb_sql.x import f` in that module resolve to f's source
         self.steps = 0
@@ -167,7 +218,23 @@ class Interp:
             raise AnalysisError(f'interpreter: step budget exceeded near line {getattr(node, "lineno", "?")}')
 
     # ---- calls ----------------------------------------------------------------------------------------------------------
-    def call_function(self, fn, args, kwargs, outer_env):
+    @classmethod
+    def for_file(cls, src, relpath, isa=None, stubs=None, also=(), methods=None, **kw):
+        """an interpreter for code of one file of the repository: module-level names (and what they import from mindsdb_sql), the methods and
+        class-level constants of every class of the file (and of the files in `also`) are resolved from the source"""
+        ms = {}
+        for f in tuple(also) + (relpath,):
+            for st in src.tree(f).body:
+                if isinstance(st, ast.ClassDef):
+                    ms[st.name] = class_members(st)
+        ms.update(methods or {})
+        it = cls(isa or {}, stubs or {}, methods=ms, **kw)
+        it.module, it.src = src.tree(relpath), src
+        return it
+
+    def call_function(self, fn, args, kwargs, outer_env, _as_generator_body=False):
+        if not _as_generator_body and any(isinstance(n, (ast.Yield, ast.YieldFrom)) for n in _own_nodes(fn)):
+            return GeneratorObj(self, fn, args, kwargs, outer_env)
         env = Env(outer_env)
         params = [a.arg for a in fn.args.args]
         defaults = fn.args.defaults
@@ -461,9 +528,26 @@ class Interp:
         if isinstance(e, (ast.ListComp, ast.GeneratorExp, ast.SetComp)):
             out = []
             self._comp(e.generators, 0, env, lambda en: out.append(self.ev(e.elt, en)))
+            if isinstance(e, ast.GeneratorExp):
+                return iter(out)        # evaluated eagerly (its element expressions are side-effect free in the analysed code), consumed once like a generator
             return set(out) if isinstance(e, ast.SetComp) else out
         if isinstance(e, ast.Call):
             return self.call(e, env)
+        if isinstance(e, ast.Yield):
+            if not self._gen_stack:
+                raise AnalysisError('interpreter: yield outside a generator')
+            g = self._gen_stack[-1]
+            g.to_consumer.put(('value', self.ev(e.value, env) if e.value is not None else None))
+            g.to_producer.get()
+            return None
+        if isinstance(e, ast.YieldFrom):
+            if not self._gen_stack:
+                raise AnalysisError('interpreter: yield outside a generator')
+            g = self._gen_stack[-1]
+            for x in self.ev(e.value, env):
+                g.to_consumer.put(('value', x))
+                g.to_producer.get()
+            return None
         if isinstance(e, ast.Lambda):
             fn = ast.FunctionDef(name='<lambda>', args=e.args, body=[ast.Return(value=e.body, lineno=e.lineno, col_offset=0)], decorator_list=[],
                                  lineno=e.lineno, col_offset=0)
@@ -473,6 +557,14 @@ class Interp:
     def _getattr(self, base, attr, d):
         if isinstance(base, ClassRef) and base.name == 're' and attr.isupper() and hasattr(re, attr):
             return int(getattr(re, attr))
+        if isinstance(base, ClassRef) and attr in self.methods.get(base.name, {}):
+            m = self.methods[base.name][attr]
+            if not isinstance(m, ast.FunctionDef):
+                return self.ev(m, Env())          # a class-level constant
+            decos = {norm(x) for x in m.decorator_list}
+            if 'classmethod' in decos:
+                return lambda *a, **k: self.call_function(m, [base] + list(a), dict(k), Env())
+            return lambda *a, **k: self.call_function(m, list(a), dict(k), Env())      # static method, or a plain function taken from the class
         if isinstance(base, ClassRef):
             return ClassRef(f'{base.name}.{attr}')
         if isinstance(base, Obj):
@@ -483,6 +575,8 @@ class Interp:
             if attr == '__class__':
                 return ClassRef(base.kind)
             m = self.methods.get(base.kind, {}).get(attr)
+            if m is not None and not isinstance(m, ast.FunctionDef):
+                return self.ev(m, Env())          # a class-level constant
             if m is not None:
                 decos = {norm(x) for x in m.decorator_list}
                 if 'staticmethod' in decos:
@@ -610,6 +704,21 @@ class Interp:
                 except (TypeError, ValueError) as x:
                     raise Raised(type(x).__name__, e)
                 return r_
+            if n in ('next', 'iter'):
+                if n == 'iter':
+                    if isinstance(args[0], (list, tuple, dict, set, str, GeneratorObj)) or hasattr(args[0], '__next__'):
+                        return iter(args[0])
+                    raise AnalysisError(f'interpreter: `{ftxt}` applied to a stand-in that does not model it')
+                if not hasattr(args[0], '__next__'):
+                    if isinstance(args[0], Obj):
+                        raise AnalysisError(f'interpreter: `{ftxt}` applied to a stand-in that does not model it')
+                    raise Raised('TypeError', e)
+                try:
+                    return next(args[0])
+                except StopIteration:
+                    if len(args) > 1:
+                        return args[1]
+                    raise Raised('StopIteration', e)
             if n in ('list', 'tuple', 'set', 'sorted', 'dict', 'str', 'int', 'bool', 'any', 'all', 'enumerate', 'zip', 'range', 'max', 'min', 'id', 'map'):
                 if n == 'map':
                     f = args[0]
@@ -695,6 +804,31 @@ class Env:
 
     def set(self, k, v):
         self.vars[k] = v
+
+
+def _own_nodes(fn):
+    stack = list(fn.body)
+    while stack:
+        n = stack.pop()
+        yield n
+        for c in ast.iter_child_nodes(n):
+            if not isinstance(c, (ast.FunctionDef, ast.ClassDef, ast.Lambda)):
+                stack.append(c)
+
+
+def class_members(cls):
+    """methods and class-level constants of a class definition, for Interp(methods={kind: class_members(cls)})"""
+    out = {}
+    for m in cls.body:
+        if isinstance(m, ast.FunctionDef):
+            out[m.name] = m
+        elif isinstance(m, ast.Assign):
+            for t in m.targets:
+                if isinstance(t, ast.Name):
+                    out[t.id] = m.value
+        elif isinstance(m, ast.AnnAssign) and m.value is not None and isinstance(m.target, ast.Name):
+            out[m.target.id] = m.value
+    return out
 
 
 def _as_load(t):
